@@ -61,7 +61,7 @@ def index():
         fired = m.get("checks_that_fire", {})
         rules = sorted({r for rs in fired.values() for r in rs})
         rows.append("| %s | %s | %s | %s | %s |" % (name, m["property"], m.get("summary", "").replace("|", "\\|").replace("\n", " ")[:150], ", ".join(rules), ", ".join(sorted(fired))))
-    head = "# Independently seeded breaking changes\n\nEach directory holds `patch.diff` (the change), `demo.diff` (a demonstration that fails with the change and passes without it) and `meta.json` (what it breaks, what it needs to manifest, what was run to confirm it, which checks fire). Produced by sub-agents that saw only the property text and a scratch worktree; confirmed with `tools/confirm_seed.py`; never applied to /repo. Directory names: `<property><letter>` = round 1, `<property>r2<letter>` = round 2, `<property>r3<letter>` = round 3, `<property>r4<letter>` = round 4.\n\n| id | property | change | rules that fire | checks that fire |\n|---|---|---|---|---|\n"
+    head = "# Independently seeded breaking changes\n\nEach directory holds `patch.diff` (the change), `demo.diff` (a demonstration that fails with the change and passes without it) and `meta.json` (what it breaks, what it needs to manifest, what was run to confirm it, which checks fire). Produced by sub-agents that saw only the property text and a scratch worktree; confirmed with `tools/confirm_seed.py`; never applied to /repo. Directory names: `<property><letter>` = round 1, `<property>r2<letter>` = round 2, `<property>r3<letter>` = round 3, `<property>r4<letter>` = round 4, `<property>r5<letter>` = round 5.\n\n| id | property | change | rules that fire | checks that fire |\n|---|---|---|---|---|\n"
     open(os.path.join(SEEDED, "INDEX.md"), "w").write(head + "\n".join(rows) + "\n")
     print("INDEX.md:", len(rows), "entries")
 
